@@ -1,8 +1,115 @@
 (** CmdC14.v — command table of the model runner for property C14
-    (commands 1400 .. 1499 of [run_cmd]; local number = c mod 100). *)
-From JSL Require Import Base.
+    (commands 1400 .. 1499 of [run_cmd]; local number = c mod 100).
+
+    Results of views that may raise: [VL [VI 0; payload]] or [VL [VI code]].
+    NaN padding ([None]) is [VL []], a present cell is [VL [VI z]]. *)
+From JSL Require Import Base Instance Dstate Filters World Feasible Views ViewsSpec.
+
+Definition enc_res {A} (f : A -> val) (r : A + exn) : val :=
+  match r with inl x => VL [VI 0; f x] | inr e => VL [VI (exn_code e)] end.
+Definition enc_op (o : op) : val := VL [vlist vnat (machines o); VI (duration o)].
+Definition enc_instance (I : instance) : val := vlist (vlist enc_op) I.
+Definition enc_mval (v : mval) : val := match v with MInt m => vnat m | MList l => vlist vnat l end.
+Definition dec_mval (v : val) : mval := match v with VI z => MInt (Z.to_nat z) | VL l => MList (map asN l) end.
+Definition enc_attrs (a : attrs) : val := VL [vnat (at_job a); vnat (at_pos a); vnat (at_id a)].
+Definition enc_marr (a : marr) : val :=
+  match a with
+  | A2 x => VL [VI 2; vlist (vlist (vopt vnat)) x]
+  | A3 x => VL [VI 3; vlist (vlist (vlist (vopt vnat))) x]
+  end.
+Definition enc_tline (l : tline) : val :=
+  match l with TComment => VL [VI 0; VL []] | TRow r => VL [VI 1; vlist VI r] end.
+Definition dec_tline (v : val) : tline :=
+  if asZ (vnth v 0) =? 0 then TComment else TRow (asLof asZ (vnth v 1)).
+Definition enc_fjs (r : fjs_result) : val :=
+  match r with
+  | FOk rows => VL [VI 0; enc_sched rows]
+  | FErr e => VL [VI (exn_code e)]
+  | FOutOfFuel => VL [VI 9]
+  end.
+
+(** 1: every view as the code computes it *)
+Definition cmd_views (v : val) : val :=
+  let I := dec_instance v in
+  VL [ vlist (vlist enc_attrs) (set_operation_attributes I);
+       vnat (num_jobs I);
+       enc_res vnat (num_machines_code I);
+       vnat (num_operations_code I);
+       vbool (is_flexible I);
+       vlist (vlist VI) (durations_matrix I);
+       enc_res (vlist (vlist enc_mval)) (machines_matrix_code I);
+       enc_res (vlist (vlist (vopt VI))) (durations_matrix_array_code I);
+       enc_res enc_marr (machines_matrix_array_code I);
+       enc_res (vlist (vlist enc_key)) (operations_by_machine_code I);
+       enc_res VI (max_duration_code I);
+       enc_res (vlist VI) (max_duration_per_job_code I);
+       enc_res (vlist VI) (max_duration_per_machine_code I);
+       vlist VI (job_durations I);
+       enc_res (vlist VI) (machine_loads_code I);
+       VI (total_duration_code I) ].
+
+(** 2: the same views from their DEFINITIONS (spec/ViewsSpec.v); where a
+    definition is a predicate ([is_max]) the candidate is checked. The
+    harness applies this to the implementation's own answers. *)
+Definition is_maxb (l : list Z) (x : Z) : bool :=
+  existsb (Z.eqb x) l && forallb (fun y => y <=? x) l.
+Definition cmd_spec (v : val) : val :=
+  let I := dec_instance v in
+  let nm := num_machines I in
+  VL [ vlist (fun k => VL [vnat (fst k); vnat (snd k); vnat (op_id I (fst k) (snd k))]) (all_keys I);
+       vnat (length I);
+       vnat nm;
+       vnat (num_ops I);
+       vlist (vlist (vopt VI)) (durations_array_spec I);
+       vlist (vlist (vopt vnat)) (machines_array2_spec I);
+       vlist (vlist (vlist (vopt vnat))) (machines_array3_spec I);
+       vlist (fun m => vlist enc_key (obm_spec I m)) (seq 0 nm);
+       vlist (fun m => VI (maxdur_machine_spec I m)) (seq 0 nm);
+       vlist (fun m => VI (load_spec I m)) (seq 0 nm);
+       VI (sumZ (all_durations I)) ].
+
+(** 3: is [x] the greatest element of each list?  input: list of [x, list] *)
+Definition cmd_is_max (v : val) : val :=
+  vlist (fun q => vbool (is_maxb (asLof asZ (vnth q 1)) (asZ (vnth q 0)))) (asL v).
+
+(** 4: to_dict;  5: from_matrices *)
+Definition cmd_to_dict (v : val) : val :=
+  let X := mkio (dec_instance v) tt tt in
+  enc_res (fun D => VL [vlist (vlist VI) (d_dur D); vlist (vlist enc_mval) (d_mach D)]) (to_dict X).
+Definition dec_dict (dm mm : val) : inst_dict unit unit :=
+  mkid tt (asLof (asLof asZ) dm) (asLof (asLof dec_mval) mm) tt.
+Definition cmd_from_matrices (v : val) : val :=
+  enc_res (fun X => enc_instance (io_jobs X)) (from_matrices (dec_dict (vnth v 0) (vnth v 1))).
+
+(** 6: parse a token file;  7: print [c] comments + instance *)
+Definition cmd_parse (v : val) : val := enc_instance (parse_taillard (asLof dec_tline v)).
+Definition cmd_print (v : val) : val :=
+  vlist enc_tline (print_taillard (asN (vnth v 0)) (dec_instance (vnth v 1))).
+
+(** 8: from_job_sequences [instance, seqs];  9: job sequences of a schedule;
+    10: Schedule.from_dict [dur, mach, seqs] *)
+Definition cmd_fjs (v : val) : val :=
+  enc_fjs (from_job_sequences (dec_instance (vnth v 0)) (asLof (asLof asZ) (vnth v 1))).
+Definition cmd_job_sequences (v : val) : val :=
+  vlist (vlist VI) (job_sequences (dec_sched v)).
+Definition cmd_from_dict (v : val) : val :=
+  match sched_from_dict (mksd (dec_dict (vnth v 0) (vnth v 1)) (asLof (asLof asZ) (vnth v 2)) tt) with
+  | FDOk X => VL [VI 0; enc_instance (io_jobs (so_inst X)); enc_sched (so_rows X)]
+  | FDErr _ _ _ e => VL [VI (exn_code e)]
+  | FDOutOfFuel _ _ _ => VL [VI 9]
+  end.
 
 Definition run_c14 (c : Z) (v : val) : val :=
   match c with
+  | 1 => cmd_views v
+  | 2 => cmd_spec v
+  | 3 => cmd_is_max v
+  | 4 => cmd_to_dict v
+  | 5 => cmd_from_matrices v
+  | 6 => cmd_parse v
+  | 7 => cmd_print v
+  | 8 => cmd_fjs v
+  | 9 => cmd_job_sequences v
+  | 10 => cmd_from_dict v
   | _ => VL []
   end.
